@@ -172,8 +172,8 @@ fn check_min(r1: &Recipe, r2: &Recipe, ctx: &mut Ctx) -> Result<(), Failure> {
 }
 
 fn equal_pair() -> BoxedStrategy<(Recipe, Recipe)> {
-    (recipe::recipe_small(), recipe::recipe_small(), 0u8..12)
-        .prop_map(|(p, q, w)| {
+    (recipe::recipe_small(), recipe::recipe_small(), 0u8..17, any::<u8>())
+        .prop_map(|(p, q, w, i)| {
             use Recipe::*;
             let b = |r: &Recipe| Box::new(r.clone());
             match w {
@@ -189,6 +189,13 @@ fn equal_pair() -> BoxedStrategy<(Recipe, Recipe)> {
                 9 => (AffineRoundTrip(Box::new(MinusOneTimes(b(&q)))), AffineRoundTrip(Box::new(Neg(b(&q))))),
                 10 => (ReDecode(b(&p)), AffineRoundTrip(Box::new(Torsion(b(&p))))),
                 11 => (Neg(b(&p)), ReDecode(Box::new(Neg(b(&p))))),
+                // an identity that came out of arithmetic (Z != 1, either representative) as an operand of
+                // every operator / iterator form
+                12 => (AddVia(i, Box::new(Sub(b(&p), b(&p))), b(&q)), q),
+                13 => (AddVia(i, b(&q), Box::new(Sub(b(&p), b(&p)))), q),
+                14 => (SubVia(i, b(&q), Box::new(Add(b(&p), Box::new(MinusOneTimes(b(&p)))))), q),
+                15 => (Sum3Via(i, Box::new(Sub(b(&p), b(&p))), b(&q), Box::new(Torsion(Box::new(Identity)))), q),
+                16 => (AddVia(i, b(&p), b(&q)), AddVia(i.wrapping_add(7), b(&q), b(&p))),
                 _ => (Add(b(&p), b(&q)), Add(b(&q), Box::new(Torsion(b(&p))))),
             }
         })
